@@ -284,6 +284,14 @@ func (fs *FileSystemDataStore) Update(ctx context.Context, writes []WriteOperati
 	for _, delete := range deletes {
 		os.Remove(string(delete.FilePointerBytes))
 	}
+	if len(deletes) > 0 {
+		// Make the removals durable before reporting the update as applied:
+		// without the directory fsync a power loss brings the removed files
+		// back next to the (already durable) file that replaced them, and
+		// every row they hold is then stored twice. Best effort, like the
+		// removals themselves.
+		syncDir(fs.rootDir)
+	}
 	return nil
 }
 
